@@ -505,6 +505,82 @@ fn case_close_with_queued_task(out: &mut CaseOut, rng: &mut Rng) {
     out.sample = Some(json!({"family": "close-with-queued-task", "ctx": ctx}));
 }
 
+/// The database handle is dropped while an iterator created from it is still alive (a struct that
+/// declares the database before the iterator does exactly that). Closing has to return, and the
+/// iterator has to be droppable afterwards, without a panic on either thread.
+fn case_close_with_live_iterator(out: &mut CaseOut, rng: &mut Rng) {
+    let d = director();
+    d.reset(rng.next_u64());
+    let cfg = gen::Config { memtable: *rng.pick(&[256usize, 4096]), file: 4096, block: 256, reuse: true };
+    let fs = SimFs::from_image(&dbutil::root_image());
+    let options = dbutil::options(fs.as_provider(), dbutil::DB_PATH, &cfg);
+    let db = {
+        let _g = watch::enter("open");
+        match DB::open(options) {
+            Ok(db) => db,
+            Err(e) => {
+                out.violate("C09/open-failed", json!({"error": e.to_string()}));
+                return;
+            }
+        }
+    };
+    for i in 0..rng.range(10, 200) {
+        let _ = db.put(WriteOptions::default(), format!("k{i:04}").into_bytes(), vec![b'v'; 30]);
+    }
+    let mut it = match db.new_iterator(ReadOptions::default()) {
+        Ok(it) => it,
+        Err(e) => {
+            out.violate("C09/new-iterator-error", json!({"error": e.to_string()}));
+            return;
+        }
+    };
+    let _ = it.seek_to_first();
+    let used_before_close = rng.chance(0.5);
+    if used_before_close {
+        for _ in 0..5 {
+            if it.is_valid() {
+                it.next();
+            }
+        }
+    }
+    let ctx = json!({"scenario": "database dropped while an iterator is alive", "config": cfg.describe(), "iterator_stepped_before_close": used_before_close});
+    let panics_before = watch::peek_panics().len();
+    let closer = std::thread::Builder::new().name("c09-closer".into()).spawn(move || {
+        let _g = watch::enter("close(iterator alive)");
+        drop(db);
+    }).unwrap();
+    let deadline = Instant::now() + Duration::from_secs(15);
+    while !closer.is_finished() && Instant::now() < deadline {
+        std::thread::sleep(Duration::from_millis(2));
+    }
+    if !closer.is_finished() {
+        out.violate("C09/close-never-returns/iterator-alive", json!({"ctx": ctx, "waited_s": 15}));
+        std::mem::forget(it);
+        return;
+    }
+    if closer.join().is_err() {
+        let panics = watch::peek_panics();
+        out.violate("C09/close-panicked/iterator-alive", json!({"ctx": ctx, "panics": watch::panics_json(&panics[panics_before.min(panics.len())..])}));
+        std::mem::forget(it);
+        let _ = watch::bg_panics();
+        return;
+    }
+    // the iterator is released after the database
+    let dropped = {
+        let _g = watch::enter("drop(iterator after close)");
+        std::panic::catch_unwind(std::panic::AssertUnwindSafe(move || drop(it)))
+    };
+    if dropped.is_err() {
+        out.violate("C09/iterator-drop-panicked/after-close", json!({"ctx": ctx, "panics": watch::panics_json(&watch::peek_panics())}));
+        return;
+    }
+    std::thread::sleep(Duration::from_millis(20));
+    judge_bg_panics(out, "C09");
+    out.add("closes_with_live_iterator", 1);
+    out.nontrivial(format!("close-with-live-iterator/stepped{}", used_before_close as u8));
+    out.sample = Some(json!({"family": "close-with-live-iterator", "ctx": ctx}));
+}
+
 /// Degenerate configurations: a memtable budget of a few bytes (smaller than what an empty memtable
 /// reports as its own footprint), files and blocks of a few bytes. Every call still has to return.
 fn case_degenerate_config(out: &mut CaseOut, rng: &mut Rng, idx: u64) {
@@ -547,6 +623,7 @@ pub fn run_case(tier: &str, seed: u64, idx: u64) -> CaseOut {
     let mut rng = Rng::new(mix(&[seed, idx], "c09"));
     match idx % 6 {
         2 if idx % 12 == 8 => case_degenerate_config(&mut out, &mut rng, idx),
+        3 if idx % 12 == 9 => case_close_with_live_iterator(&mut out, &mut rng),
         0 if idx % 12 == 6 => case_flush_into_gap(&mut out, &mut rng),
         1 if idx % 12 == 7 => case_close_with_queued_task(&mut out, &mut rng),
         0 => case_descriptors(&mut out, &mut rng),
